@@ -10,7 +10,7 @@ PID = "C03"
 TITLE = "Class bodies: member kinds, access levels and special members are right"
 THEOREM_FILE = "Props/C03.v"
 MODELLED = ("the access level attached to a member is proved on the regenerated block machine (access_in_force_partial); base clauses over "
-            "identifier-named bases are modelled by hand (Parse/BaseClause.v, base_clause_decodes_partial) and tied differentially; member kinds, "
+            "identifier-named bases (Parse/BaseClause.v) and field statements with specifiers, bit-fields and initialisers (Parse/Members.v) are modelled by hand, proved and tied differentially; member kinds, "
             "constructor/destructor/operator recognition, method qualifiers, bases and anonymous-id sharing live in the parser bulk and are "
             "decided by the AST-first class search")
 ASSUMPTIONS = []
@@ -91,9 +91,107 @@ def corr_bases(ctx, corr):
             corr.disagreements.append(dict(case=dict(kind='corr-bases', key=key, tokens=toks), model=str(m)[:300], impl=str(r)[:300], what=msg))
 
 
+FIELD_INITS = [None, None, None, ['=', '7'], ['=', 'a', '+', 'f', '(', '1', ',', '2', ')'], ['{', '1', '}'], ['=', '{', '1', ',', '2', '}'], [':', '3'],
+               [':', '3', '=', '1'], [':', '12', '{', '0', '}']]
+
+
+def real_fields(text):
+    try:
+        d = impl.parse_string(text)
+    except (impl.CxxParseError, AssertionError, RecursionError):
+        return ('err',)
+    ns = d.namespace
+    if len(ns.classes) != 1 or ns.functions or ns.variables or ns.typedefs:
+        return ('other',)
+    c = ns.classes[0]
+    if c.methods or c.classes or c.typedefs or c.enums or c.using or c.using_alias or c.friends or c.forward_decls or not c.fields:
+        return ('other',)
+    from harness import decl
+    out = []
+    flags = None
+    for f in c.fields:
+        if f.access != 'public' or f.name is None:
+            return ('other',)
+        fl = (f.constexpr, f.inline, f.static, f.mutable)
+        if flags is not None and fl != flags:
+            return ('other',)
+        flags = fl
+        try:
+            out.append((f.name, decl.from_real(f.type), None if f.bits is None else str(f.bits),
+                        None if f.value is None else tuple(t.value for t in f.value.tokens)))
+        except decl.Unrepresentable:
+            return ('other',)
+    return ('ok', flags, out)
+
+
+def corr_fields(ctx, corr):
+    """field statements: extracted field_stmt (specifier loop + validate + declarator / bit-field / initialiser loop) vs the
+    fields of `struct S_ { <statement> };`"""
+    from harness import decl, members
+    from harness.props import c02
+    rng = ctx.rng
+    cases = []
+    for _ in range(ctx.scale(800, 16000)):
+        base = rng.choice(['Foo', 'Bar', 'T'])
+        pre = [rng.choice(['static', 'mutable', 'constexpr', 'inline', 'const', 'volatile', 'extern', 'virtual'])
+               for _ in range(rng.choice([0, 0, 1, 1, 2]))]
+        toks = pre + [base]
+        n = rng.choice([1, 1, 2, 3])
+        for i in range(n):
+            while True:
+                t = decl.rand_type(rng, rng.choice([0, 0, 1, 2, 4]))
+                t = _rebase(t, ('B', base, False, False))
+                if decl.legal(t) and decl.var_ok(t):
+                    break
+            if i:
+                toks.append(',')
+            toks += decl.print_layers(decl.layers(t)[1], ['f%d' % i])
+            init = rng.choice(FIELD_INITS)
+            if init:
+                toks += init
+        toks.append(';')
+        cases.append((toks, n))
+        if rng.random() < 0.3:
+            mt = c02.mutate(rng, toks[:-1]) + [';']
+            cases.append((mt, mt.count(',') + 1))
+    # the model sees what the implementation sees: the statement followed by the closing tokens of the host class
+    ms = members.run_members(92, [(toks + ['}', ';'], n) for toks, n in cases])
+    for (toks, n), m in zip(cases, ms):
+        corr.cases += 1
+        r = real_fields('struct S_ { ' + ' '.join(toks) + ' };')
+        key = "field:" + (m[0] if m[0] == 'ok' else 'err%d' % m[1]) + "/" + r[0]
+        corr.dist[key] = corr.dist.get(key, 0) + 1
+        msg = None
+        if m[0] == 'ok' and m[3] == 2:
+            mm = ((m[1][2], m[1][4], m[1][5], m[1][8]), m[2])      # constexpr, inline, static, mutable
+            if r[0] == 'err':
+                msg = "model decodes the field statement but the implementation rejects it"
+            elif r[0] == 'ok' and (r[1], r[2]) != mm:
+                msg = "model %s; implementation %s %s" % (mm, r[1], r[2])
+        elif m[0] == 'err' and m[1] in (1, 2, 3) and r[0] == 'ok':
+            msg = "model rejects (code %d) but the implementation reports %s" % (m[1], r[2])
+        if msg:
+            corr.disagreements.append(dict(case=dict(kind='corr-field', tokens=toks, n=n), model=str(m)[:300], impl=str(r)[:300],
+                                           what="field statement `%s`: %s" % (' '.join(toks), msg)))
+
+
+def _rebase(t, base):
+    k = t[0]
+    if k == 'B':
+        return base
+    if k == 'P':
+        return ('P', _rebase(t[1], base), t[2], t[3])
+    if k in 'RM':
+        return (k, _rebase(t[1], base))
+    if k == 'A':
+        return ('A', _rebase(t[1], base), t[2])
+    return ('F', _rebase(t[1], base), t[2], t[3])
+
+
 def correspond(ctx):
     corr = c05.correspond(ctx)
     corr_bases(ctx, corr)
+    corr_fields(ctx, corr)
     corr.note += " | base clauses: extracted Parse/BaseClause.v vs class_decl.bases of parse_string on valid and mutated clauses (class keys struct / class / union)"
     return corr
 
